@@ -11,7 +11,8 @@
 (* completed API call is emitted, once per schedule.                         *)
 (***************************************************************************)
 EXTENDS NameBook, Json
-CONSTANTS Schedules       \* "each": client runs after every message; "glue": only before API calls / at the end
+CONSTANTS NoiseKinds,     \* subset of {"forged", "other"}: forged signals about N / genuine ones about another name
+          Schedules       \* "each": client runs after every message; "glue": only before API calls / at the end
 
 VARIABLES hist            \* script so far
 gvars == <<vars, hist>>
@@ -28,10 +29,10 @@ Items(ms) == [i \in 1..Len(ms) |-> Item(ms[i])]
 \* that wrongly accepted it would change state: "lost" while owner with replacement allowed, "acq" while queued
 Matters(w) == IF w = "lost" THEN cl.L = "owner" /\ cl.allow ELSE cl.L = "queued"
 BusStep == /\ (OtherTakes \/ OtherReplacesUs \/ OtherReleases \/ BusRequest \/ BusRelease
-               \/ \E w \in {"acq", "lost"} : Matters(w) /\ Forge(w))
+               \/ \E w \in {"acq", "lost"} : "forged" \in NoiseKinds /\ Matters(w) /\ Forge(w))
            /\ hist' = hist \o Items(Msgs(chan, chan'))
 \* a genuine signal about another name: never concerns the client's bookkeeping of N (not part of `chan`)
-OtherName(w) == /\ Matters(w) /\ forged < MaxForged /\ forged' = forged + 1
+OtherName(w) == /\ "other" \in NoiseKinds /\ Matters(w) /\ forged < MaxForged /\ forged' = forged + 1
                 /\ hist' = Append(hist, [k |-> "sig", what |-> w, gen |-> TRUE, name |-> "M"])
                 /\ UNCHANGED <<holder, inq, ballow, bdnq, chan, call, kn, cl, steps, wrong>>
 ClientStep == Recv /\ UNCHANGED hist
